@@ -281,6 +281,14 @@ func readOnlyFreeVar(fv *ssa.FreeVar, depth int) bool {
 			if x.Op != token.MUL {
 				return false
 			}
+		case *ssa.FieldAddr:
+			if !onlyLoadedFrom(x, 0) {
+				return false
+			}
+		case *ssa.IndexAddr:
+			if !onlyLoadedFrom(x, 0) {
+				return false
+			}
 		case *ssa.DebugRef:
 		case *ssa.MakeClosure:
 			cf, _ := x.Fn.(*ssa.Function)
@@ -292,6 +300,35 @@ func readOnlyFreeVar(fv *ssa.FreeVar, depth int) bool {
 					return false
 				}
 			}
+		default:
+			return false
+		}
+	}
+	return true
+}
+
+// onlyLoadedFrom: the address value is only used to load (possibly through further
+// field/index selection)
+func onlyLoadedFrom(v ssa.Value, depth int) bool {
+	refs := v.Referrers()
+	if refs == nil || depth > 4 {
+		return false
+	}
+	for _, r := range *refs {
+		switch x := r.(type) {
+		case *ssa.UnOp:
+			if x.Op != token.MUL {
+				return false
+			}
+		case *ssa.FieldAddr:
+			if !onlyLoadedFrom(x, depth+1) {
+				return false
+			}
+		case *ssa.IndexAddr:
+			if _, isPtr := x.X.Type().Underlying().(*types.Pointer); !isPtr || !onlyLoadedFrom(x, depth+1) {
+				return false
+			}
+		case *ssa.DebugRef:
 		default:
 			return false
 		}
